@@ -1,0 +1,105 @@
+// Copyright (c) 2026 10X Genomics, Inc. All rights reserved.
+
+//go:build verif
+
+package core
+
+import (
+	"context"
+	"encoding/json"
+	"fmt"
+	"strings"
+
+	"github.com/martian-lang/martian/martian/syntax"
+)
+
+// More exports for the external verification harness (property C10): run-time
+// functions that walk a Go map and whose result reaches serialized state or
+// error text.  This file is only compiled with `-tags verif`.
+
+// VerifC10UnknownKeys exposes getUnknownKeys (the keys of a run-time map over
+// which a call forks), in the order it returns them.
+func VerifC10UnknownKeys(v json.Marshaler) ([]string, error) {
+	return getUnknownKeys(v)
+}
+
+// VerifC10RawMap is the form in which a map read back from an _outs file is
+// handed to getUnknownKeys by the reflection branch.
+type VerifC10RawMap map[string]int
+
+func (m VerifC10RawMap) MarshalJSON() ([]byte, error) { return json.Marshal(map[string]int(m)) }
+
+// VerifC10AddForks gives every node of the world one fork (if it has none).
+func (w *VerifWorld) VerifC10AddForks() error {
+	for _, id := range w.Fqids() {
+		if n := w.top.allNodes[id]; len(n.forks) == 0 {
+			if _, err := w.AddFork(id, nil, 0); err != nil {
+				return err
+			}
+		}
+	}
+	return nil
+}
+
+// VerifC10Stages returns the stages listed by Fork.getStages (the `stages`
+// of the fork's _perf file) for the first fork of node fqid.
+func (w *VerifWorld) VerifC10Stages(fqid string) (s string) {
+	defer func() {
+		if r := recover(); r != nil {
+			s = fmt.Sprintf("panic: %v", r)
+		}
+	}()
+	n := w.top.allNodes[fqid]
+	if n == nil || len(n.forks) == 0 {
+		return "no fork of " + fqid
+	}
+	var names []string
+	for _, st := range n.forks[0].getStages() {
+		names = append(names, st.Fqname)
+	}
+	return strings.Join(names, " ")
+}
+
+// VerifC10SerializePerf returns the JSON of Fork.serializePerf (the content
+// of the fork's _perf file) for the first fork of node fqid.
+func (w *VerifWorld) VerifC10SerializePerf(fqid string) (s string) {
+	defer func() {
+		if r := recover(); r != nil {
+			s = fmt.Sprintf("panic: %v", r)
+		}
+	}()
+	n := w.top.allNodes[fqid]
+	if n == nil || len(n.forks) == 0 {
+		return "no fork of " + fqid
+	}
+	if w.top.rt.Config == nil {
+		w.top.rt.Config = new(RuntimeOptions)
+	}
+	perf, _ := n.forks[0].serializePerf(context.Background())
+	b, err := json.Marshal(perf)
+	if err != nil {
+		return "marshal error: " + err.Error()
+	}
+	return string(b)
+}
+
+// VerifC10VerifyPipelineOutput calls Fork.verifyPipelineOutput (whose message
+// becomes the _errors text of a pipeline fork) for the first fork of node
+// fqid, with the given outputs and their type.
+func (w *VerifWorld) VerifC10VerifyPipelineOutput(fqid string, outs json.Marshaler,
+	tid syntax.TypeId) (ok bool, msg string) {
+	defer func() {
+		if r := recover(); r != nil {
+			ok, msg = false, fmt.Sprintf("panic: %v", r)
+		}
+	}()
+	n := w.top.allNodes[fqid]
+	if n == nil || len(n.forks) == 0 {
+		return false, "no fork of " + fqid
+	}
+	t := w.top.types.Get(tid)
+	if t == nil {
+		return false, "no type " + tid.String()
+	}
+	return n.forks[0].verifyPipelineOutput(outs, t)
+}
